@@ -303,6 +303,7 @@ class Interp:
         self.no_inline = set(no_inline)
         self.uid = 0
         self.log = []
+        self.derived = {}  # derived symbol name -> (kind, Lin a, Lin b): structure of floor/mod/product/abs/max symbols
 
     # ---------------------------------------------------------------- running
     def run_function(self, frame, args, st=None):
@@ -825,12 +826,20 @@ class Interp:
                     return nb.shift(la)
             return Opq("add" if sign == 1 else "sub", [a, b])
         if isinstance(op, ast.Mult):
+            for x, lx in ((a, lb), (b, la)):
+                if isinstance(x, Rng) and lx is not None and x.step == Lin.c(1):
+                    lo = self.binop(ast.Mult(), x.lo, lx, st)
+                    hi = self.binop(ast.Mult(), x.hi, lx, st)
+                    if isinstance(lo, Lin) and isinstance(hi, Lin):
+                        return Rng(lo, hi, lx)
             if la is not None and lb is not None:
                 if la.is_const():
                     return lb.scale(la.const)
                 if lb.is_const():
                     return la.scale(lb.const)
-                return Lin.sym("(%r)*(%r)" % tuple(sorted([la, lb], key=repr)))
+                nm = "(%r)*(%r)" % tuple(sorted([la, lb], key=repr))
+                self.derived[nm] = ("mul", la, lb)
+                return Lin.sym(nm)
             return Opq("mul", [a, b])
         if isinstance(op, ast.Div):
             if la is not None and lb is not None and lb.is_const() and lb.const != 0:
@@ -840,13 +849,17 @@ class Interp:
             if la is not None and lb is not None:
                 if la.is_const() and lb.is_const() and lb.const != 0:
                     return Lin.c(la.const // lb.const)
-                return Lin.sym("floor((%r)/(%r))" % (la, lb))
+                nm = "floor((%r)/(%r))" % (la, lb)
+                self.derived[nm] = ("floordiv", la, lb)
+                return Lin.sym(nm)
             return Opq("floordiv", [a, b])
         if isinstance(op, ast.Mod):
             if la is not None and lb is not None:
                 if la.is_const() and lb.is_const() and lb.const != 0:
                     return Lin.c(la.const % lb.const)
-                return Lin.sym("(%r) mod (%r)" % (la, lb))
+                nm = "(%r) mod (%r)" % (la, lb)
+                self.derived[nm] = ("mod", la, lb)
+                return Lin.sym(nm)
             return Opq("mod", [a, b])
         return Opq("binop:" + type(op).__name__, [a, b])
 
@@ -990,6 +1003,7 @@ class Interp:
                 if st.facts.entails_cmp(l, "<=", 0) is not None:
                     return -l
                 s = Lin.sym("abs(%r)" % l)
+                self.derived["abs(%r)" % l] = ("abs", l, None)
                 st.facts.add_cmp(s, ">=", 0, "abs() is non-negative")
                 return s
             return Opq("abs", args)
@@ -1001,6 +1015,20 @@ class Interp:
             if isinstance(a, Rng) and a.step == Lin.c(1):
                 return a.lo if which == "first" else a.hi - 1
             return Opq(ext, args)
+        if ext in ("builtins.max", "builtins.min", "numpy.maximum", "numpy.minimum") and len(args) == 2 \
+                and lins[0] is not None and lins[1] is not None:
+            a, b = lins
+            is_max = "max" in ext
+            if st.facts.entails_cmp(a, ">=", b) is not None:
+                return a if is_max else b
+            if st.facts.entails_cmp(b, ">=", a) is not None:
+                return b if is_max else a
+            nm = "%s(%r, %r)" % ("max" if is_max else "min", a, b)
+            self.derived[nm] = ("max" if is_max else "min", a, b)
+            sy = Lin.sym(nm)
+            for x in (a, b):
+                st.facts.add_cmp(sy, ">=" if is_max else "<=", x, "%s bounds its arguments" % ("max" if is_max else "min"))
+            return sy
         if ext in ("builtins.int", "numpy.int", "numpy.int64", "builtins.float") and len(args) == 1 and lins[0] is not None:
             return lins[0]
         if ext in ("numpy.array", "numpy.asarray") and args:
@@ -1172,6 +1200,40 @@ def _facts_meet(fs):
         if all(any(f == g for g, _ in other.items) for other in fs[1:]):
             keep.append((f, o))
     return Facts(keep)
+
+
+def concrete(interp, lin, env):
+    """Evaluate an affine form on a concrete assignment ``env`` (symbol -> int); derived symbols (floor, mod,
+    product, abs, max, min) are computed from their recorded structure.  Raises KeyError for unknown symbols."""
+    from fractions import Fraction as _F
+    total = _F(lin.const)
+    for sym, coef in lin.terms.items():
+        if sym in env:
+            v = env[sym]
+        elif sym in interp.derived:
+            kind, a, b = interp.derived[sym]
+            va = concrete(interp, a, env)
+            vb = concrete(interp, b, env) if b is not None else None
+            if kind == "mul":
+                v = va * vb
+            elif kind == "floordiv":
+                if vb == 0:
+                    raise KeyError("division by zero")
+                v = va // vb
+            elif kind == "mod":
+                if vb == 0:
+                    raise KeyError("division by zero")
+                v = va % vb
+            elif kind == "abs":
+                v = abs(va)
+            elif kind == "max":
+                v = max(va, vb)
+            else:
+                v = min(va, vb)
+        else:
+            raise KeyError(sym)
+        total += coef * v
+    return total
 
 
 def as_lin_val(v):
